@@ -268,6 +268,9 @@ class SafeLearner(Learner):
         return method(*args,**kwargs)
 
     def _method2(self,method,args,kwargs):
+        #an argument that is absent (None) for the whole batch is absent for every row
+        n_rows = SafeLearner.batch_size(args)
+        args   = [ [None]*n_rows if a is None else a for a in args ]
         pred = [ method(*a,**{k:v[i] for k,v in kwargs.items()}) for i,a in enumerate(zip(*args)) ]
         if not pred:
             raise CobaException(
